@@ -182,10 +182,10 @@ def cfgcli_stream(tier):
     return dict(name='cli-layers', harness=['cfgcli', str(n), '{seed}', '{shard}', '{nshards}'], driver='cfgcli', timeout=3000)
 
 
-PROPS['C16']['streams'] = lambda tier: config_streams(tier) + [exec_stream(tier), cfgcli_stream(tier)]
+PROPS['C16']['streams'] = lambda tier: config_streams(tier) + [exec_stream(tier), cfgcli_stream(tier), cli_stream(tier)]
 PROPS['C16']['needs_scrut_bin'] = True
 PROPS['C16']['theorems'].append('C16_env_observed_unless_carried')
-PROPS['C16']['tags'] = {'Q': 'cfgcli'}
+PROPS['C16']['tags'] = {'Q': 'cfgcli', 'R': 'cli'}
 PROPS['C16']['corr_kinds'] = ['DIFF:']
 PROPS['C16']['case_format'] += ('   Q <command-line layer>|<document;document: role m main p/a prepended/appended by the front-matter P/A by flags:<defaults layer>:<inline layer of each test, /-separated>>|exit|'
                                 '<title=lines the failing test was validated on: O stdout line, E stderr line, + = CR kept>|<id|VA|VB|VC|VD as the test saw them>')
@@ -283,11 +283,11 @@ def rules_streams(tier):
 
 PROPS['C04'] = dict(
     family='line', tags={'M': 'rules'},
-    theorems=['C04_equal', 'C04_no_eol', 'C04_escaped', 'C04_glob', 'C04_cram_glob', 'C04_regex_whole_line', 'C04_regex_rule_partial'],
+    theorems=['C04_equal', 'C04_no_eol', 'C04_escaped', 'C04_glob', 'C04_cram_glob', 'C04_regex_whole_line', 'C04_regex_rule_partial', 'C04_regex_prepare_plain'],
     streams=rules_streams,
-    spec_kinds=['SPEC:C04'], corr_kinds=['DIFF:regex', 'DIFF:glob', 'DIFF:cramglob', 'DIFF:equal', 'DIFF:no-eol', 'DIFF:escaped'],
+    spec_kinds=['SPEC:C04'], corr_kinds=['DIFF:regex', 'DIFF:regex-prepare', 'DIFF:glob', 'DIFF:cramglob', 'DIFF:equal', 'DIFF:no-eol', 'DIFF:escaped'],
     case_format='M r <regex AST, prefix form>|<hex of the expression text>|<hex line content> <1 = final newline>|<matches>   M g <hex glob pattern>|<hex content> <nl>|<matches>|<Cram-style glob matches>   '
-                'M q/p/n/x <hex expression>|<hex line bytes>|<matches>  (q equal, p plain line, n no-eol, x escaped)',
+                'M q/p/n/x <hex expression>|<hex line bytes>|<matches>  (q equal, p plain line, n no-eol, x escaped)   M z <hex regex expression>|x<hex of the prepared expression the rule holds> or err',
     rule='regex: random ASTs (depth <= 3: literals incl. metacharacters and a 2-byte character, ., classes, sequence, alternation at top level and nested, star) printed as a user would write them, '
          'lines sampled from the language and mutated; glob: patterns over a b * ? e-acute space . backslash with lines instantiated from the pattern and mutated; '
          'equal/no-eol/escaped: byte lines with 0-2 final newlines, escape sequences, tabs. Distinct by case text',
